@@ -303,8 +303,22 @@ PtGc == /\ pc = "ptgc" /\ pc' = "gcstrip" /\ todo' = GcList
 \* ---- persist the references: all desired ids (Pipeline: SSA patch of spec.resourceRefs; PT: Update of the XR)
 NewRefs == {des[n] : n \in wantR} \ {None}
 RefsVerb == IF Mode = "PT" THEN "update" ELSE "patch"
+\* With legacy managed fields the composer upgrades every observed resource right after it persisted the references: a JSON
+\* patch pinned to the resourceVersion of the copy it observed. If another owner took one of them over since the observation
+\* (UpGrab), that patch is refused (Conflict), Compose returns the error and nothing of the foreign owner's object is touched
+\* (added after the seeded change C02-m10 - the upgrade patch lost its resourceVersion pin - was missed).
+UpBlocked == /\ Mode = "Pipeline" /\ "legacy" \in deco
+             /\ \E o \in startR : Exists(o) /\ store[o].ctrl = "foreign" /\ startS[o].ctrl = "xr"
+UpGrab == /\ Mode = "Pipeline" /\ "legacy" \in deco /\ pc = "refs" /\ envs < MaxEnv
+          /\ \E o \in startR \cap {des[n] : n \in wantR} :
+                /\ o # None /\ Live(o) /\ store[o].ctrl = "xr" /\ startS[o].ctrl = "xr"
+                /\ store' = [store EXCEPT ![o].ctrl = "foreign"] /\ Log(H("env", "grab", IdStr(o), ""))
+          /\ envs' = envs + 1 /\ quiet' = FALSE
+          /\ UNCHANGED <<refs, want, rfail, deco, nextId, pc, obs, des, wantR, todo, recs, faults, pfail, startS, cmiss, startR, gcd, steady, bad>>
 PersistRefs == /\ pc = "refs"
-               /\ \/ /\ Ok(RefsVerb, "xr") /\ refs' = NewRefs /\ pc' = "apply" /\ todo' = NamesSeq({n \in wantR : des[n] # None /\ n \notin rfail}) /\ Stay /\ UNCHANGED pfail
+               /\ \/ /\ Ok(RefsVerb, "xr") /\ refs' = NewRefs /\ Stay
+                     /\ (IF UpBlocked THEN pc' = "status" /\ todo' = <<>> /\ pfail' = "err"
+                                      ELSE pc' = "apply" /\ todo' = NamesSeq({n \in wantR : des[n] # None /\ n \notin rfail}) /\ UNCHANGED pfail)
                      /\ bad' = bad \cup (IF Steady /\ NewRefs # refs THEN {"Quiescent"} ELSE {})
                   \/ /\ NoEffect(RefsVerb, "xr") /\ UNCHANGED <<refs, bad>>
                   \/ /\ Crash(RefsVerb, "xr") /\ refs' = NewRefs /\ UNCHANGED bad
@@ -354,7 +368,7 @@ Status == /\ pc = "status"
              \/ Crash("update-status", "xr")
           /\ UNCHANGED <<store, refs, want, rfail, deco, nextId, obs, des, wantR, envs, pfail, startS, cmiss, startR, gcd, bad>>
 
-Rec == Start \/ Observe \/ ObserveMiss \/ ObserveDone \/ Desire \/ Alloc \/ PipeAllocExit \/ PtAllocExit \/ PtGc \/ GcStrip \/ GcVanish \/ GcGrab \/ GcDelete \/ GcDone
+Rec == Start \/ Observe \/ ObserveMiss \/ ObserveDone \/ Desire \/ Alloc \/ PipeAllocExit \/ PtAllocExit \/ PtGc \/ GcStrip \/ GcVanish \/ GcGrab \/ UpGrab \/ GcDelete \/ GcDone
        \/ PersistRefs \/ ApplyGet \/ ApplyW \/ ApplyDone \/ XrStatus \/ Status
 Next == Env \/ Rec
 Spec == Init /\ [][Next]_vars
